@@ -429,3 +429,103 @@ Proof.
       apply plain_no_sep. rewrite Hx in Hpx. apply plain_app in Hpx. destruct Hpx as [_ Hpt].
       rewrite Hw in Hpt. apply plain_app in Hpt. apply Hpt.
 Qed.
+
+(** ** Match on a well-formed pattern and a plain name = the declarative relation *)
+Theorem MatchLoop_plain : forall fuel p ts s, Parses p ts -> plain s -> (length p < fuel)%nat ->
+  exists b, MatchLoop fuel p s = Ok b /\ (b = true <-> Matches ts s).
+Proof.
+  induction fuel as [|f IH]; intros p ts s HP Hp Hf; [lia|].
+  destruct p as [|c0 p0].
+  - inversion HP; subst. cbn. exists (is_nil s). split; [reflexivity|].
+    destruct s; cbn; split; intros H; try constructor; try discriminate; inversion H.
+  - destruct (strip_stars_parses _ _ HP) as (k & p1 & ts1 & Hss & Hpp & Hts & Hp1 & Hns).
+    destruct (scan_parses _ _ Hp1) as (chunk & rest & items & ts' & Hsc & Hp1e & Hpc & Hn & Hpr & Hts1 & Hend).
+    assert (Hlen : (length rest < f)%nat).
+    { assert (Hl : length (c0 :: p0) = (k + (length chunk + length rest))%nat).
+      { rewrite Hpp, Hp1e, !app_length, repeat_length. reflexivity. }
+      assert (Hpos : (1 <= k + length chunk)%nat).
+      { destruct k; [|lia]. destruct chunk; [|cbn; lia]. exfalso. cbn in Hpp, Hp1e.
+        destruct Hend as [[Hr _]|(r & t2 & Hr & _)]; [rewrite Hp1e, Hr in Hpp; discriminate|apply (Hns r); rewrite Hp1e; exact Hr]. }
+      cbn [length] in Hl, Hf. lia. }
+    assert (Hend' : is_nil rest = true /\ ts' = [] \/ is_nil rest = false /\ exists t2, ts' = TStar :: t2).
+    { destruct Hend as [[Hr Ht]|(r & t2 & Hr & Ht)]; [left; subst; split; reflexivity|right; subst; split; [reflexivity|eauto]]. }
+    assert (Htseq : ts = repeat TStar k ++ items ++ ts') by (rewrite Hts, Hts1; reflexivity).
+    cbn [MatchLoop]. unfold scanChunk. rewrite Hss, Hsc. cbv beta iota zeta.
+    destruct ((0 <? k)%nat && is_nil chunk) eqn:EA.
+    + (* trailing stars *)
+      apply andb_prop in EA. destruct EA as [Ek Ec]. apply Nat.ltb_lt in Ek.
+      destruct chunk; [|discriminate]. inversion Hpc; subst items. cbn in Hp1e.
+      destruct Hend as [[Hr Ht]|(r & t2 & Hr & _)]; [|exfalso; apply (Hns r); rewrite Hp1e; exact Hr].
+      exists true. rewrite (plain_contains_sep s Hp). split; [reflexivity|]. split; [|reflexivity]. intros _.
+      rewrite Htseq, Ht. destruct k; [lia|]. cbn [app]. rewrite app_nil_r.
+      pose proof (Matches_stars_intro k [] s [] (plain_no_sep s Hp) M_nil) as Hm. rewrite !app_nil_r in Hm. exact Hm.
+    + pose proof (fun x => matchChunk_parses chunk items x Hpc Hn) as Hmc. rewrite Hmc.
+      (* what follows a failed (or, for the last chunk, inexact) first attempt *)
+      assert (Hafter : (forall t'', PM items s = Some t'' -> is_nil rest = true /\ t'' <> []) ->
+        exists b, (if (0 <? k)%nat
+                   then match starLoop chunk (is_nil rest) s with
+                        | Ok (Some t) => MatchLoop f rest t
+                        | Ok None => Ok false
+                        | Bad => Bad | Fuel => Fuel | Panic => Panic
+                        end
+                   else Ok false) = Ok b /\ (b = true <-> Matches ts s)).
+      { intros Hbad0.
+        assert (Hno0 : forall s1' t', s = s1' ++ t' -> Matches items s1' -> Matches ts' t' -> False).
+        { intros s1' t' Es Hm1 Hm2.
+          assert (Hpm : PM items s = Some t') by (rewrite Es; apply PM_plain_complete; [rewrite <- Es; exact Hp|exact Hm1|exact Hn]).
+          destruct (Hbad0 t' Hpm) as [Hl Hne]. destruct Hend' as [[_ Ht]|[Hl' _]]; [|congruence].
+          subst ts'. inversion Hm2; subst. congruence. }
+        destruct (0 <? k)%nat eqn:Ek.
+        - apply Nat.ltb_lt in Ek. destruct k as [|k']; [lia|].
+          pose proof (starLoop_spec chunk items Hmc (is_nil rest) s (plain_no_sep s Hp)) as Hspec.
+          destruct (starLoop chunk (is_nil rest) s) as [[t|]| | |]; try contradiction.
+          + destruct Hspec as (v & x & Hs & Hv & Hpm & Hl & Hleft).
+            assert (Hpx : plain x) by (rewrite Hs in Hp; apply plain_app in Hp; apply Hp).
+            destruct (PM_plain_some items Hn x t Hpx Hpm) as (s1 & Hx & Hl1 & Hm1).
+            assert (Hpt : plain t) by (rewrite Hx in Hpx; apply plain_app in Hpx; apply Hpx).
+            destruct (IH rest ts' t Hpr Hpt Hlen) as (b & Hb & Hiff). exists b. split; [exact Hb|].
+            rewrite Hiff, Htseq. split.
+            * intros Hm2. rewrite Hs, Hx. apply Matches_stars_intro.
+              -- apply plain_no_sep. rewrite Hs in Hp. apply plain_app in Hp. apply Hp.
+              -- apply Matches_app_plain; [exact Hn|rewrite <- Hx; exact Hpx|exact Hm1|exact Hm2].
+            * intros Hm. destruct (Matches_stars_elim _ _ _ Hm) as (u & t0 & Hs0 & Hm0).
+              assert (Hp0 : plain t0) by (rewrite Hs0 in Hp; apply plain_app in Hp; apply Hp).
+              destruct (Matches_split_plain items ts' t0 Hn Hp0 Hm0) as (s1' & t' & Ht0 & Hm1' & Hm2').
+              eapply (align_forward items ts' (is_nil rest) s v x t u s1' t'); try eassumption.
+              -- intros v' x' t'' Es' Hlt Hpm'. destruct v' as [|cv v'].
+                 ++ cbn in Es'. subst x'. apply Hbad0. exact Hpm'.
+                 ++ apply (Hleft (cv :: v') x' t''); [exact Es'|discriminate|exact Hlt|exact Hpm'].
+              -- rewrite Hs0, Ht0. reflexivity.
+          + exists false. split; [reflexivity|]. split; [discriminate|]. intros Hm. exfalso.
+            rewrite Htseq in Hm. destruct (Matches_stars_elim _ _ _ Hm) as (u & t0 & Hs0 & Hm0).
+            assert (Hp0 : plain t0) by (rewrite Hs0 in Hp; apply plain_app in Hp; apply Hp).
+            destruct (Matches_split_plain items ts' t0 Hn Hp0 Hm0) as (s1' & t' & Ht0 & Hm1' & Hm2').
+            destruct u as [|cu u'].
+            * cbn in Hs0. subst t0. exact (Hno0 s1' t' Ht0 Hm1' Hm2').
+            * assert (Hpm : PM items t0 = Some t') by (rewrite Ht0; apply PM_plain_complete; [rewrite <- Ht0; exact Hp0|exact Hm1'|exact Hn]).
+              destruct (Hspec (cu :: u') t0 t' Hs0 ltac:(discriminate) Hpm) as [Hl Hne].
+              destruct Hend' as [[_ Ht]|[Hl' _]]; [|congruence]. subst ts'. inversion Hm2'; subst. congruence.
+        - exists false. split; [reflexivity|]. split; [discriminate|]. intros Hm. exfalso.
+          apply Nat.ltb_ge in Ek. assert (k = 0%nat) by lia. subst k. rewrite Htseq in Hm. cbn [repeat app] in Hm.
+          destruct (Matches_split_plain items ts' s Hn Hp Hm) as (s1' & t' & Es & Hm1' & Hm2').
+          exact (Hno0 s1' t' Es Hm1' Hm2'). }
+      destruct (PM items s) as [t|] eqn:Epm.
+      * destruct (is_nil t || negb (is_nil rest)) eqn:Ec; cbv beta iota zeta.
+        -- destruct (PM_plain_some items Hn s t Hp Epm) as (s1 & Hs & Hl1 & Hm1).
+           assert (Hpt : plain t) by (rewrite Hs in Hp; apply plain_app in Hp; apply Hp).
+           destruct (IH rest ts' t Hpr Hpt Hlen) as (b & Hb & Hiff). exists b. split; [exact Hb|].
+           rewrite Hiff, Htseq. split.
+           ++ intros Hm2. assert (Hm : Matches (items ++ ts') s) by (rewrite Hs; apply Matches_app_plain; [exact Hn|rewrite <- Hs; exact Hp|exact Hm1|exact Hm2]).
+              destruct k as [|k']; [exact Hm|]. apply (Matches_stars_intro k' (items ++ ts') [] s); [constructor|exact Hm].
+           ++ intros Hm. destruct (Matches_stars_elim _ _ _ Hm) as (u & t0 & Hs0 & Hm0).
+              assert (Hp0 : plain t0) by (rewrite Hs0 in Hp; apply plain_app in Hp; apply Hp).
+              destruct (Matches_split_plain items ts' t0 Hn Hp0 Hm0) as (s1' & t' & Ht0 & Hm1' & Hm2').
+              eapply (align_forward items ts' (is_nil rest) s [] s t u s1' t'); try eassumption.
+              ** reflexivity.
+              ** intros v' x' t'' _ Hlt. cbn in Hlt. lia.
+              ** intros Hl. rewrite Hl in Ec. cbn in Ec. rewrite orb_false_r in Ec. destruct t; [reflexivity|discriminate].
+              ** rewrite Hs0, Ht0. reflexivity.
+        -- apply Hafter. intros t'' E. inversion E; subst t''. apply orb_false_elim in Ec. destruct Ec as [E1 E2].
+           split; [destruct (is_nil rest); [reflexivity|discriminate]|destruct t; [discriminate|discriminate]].
+      * cbv beta iota zeta. apply Hafter. discriminate.
+Qed.
